@@ -30,6 +30,37 @@ def build(key, variant, i):
         env = {'self': box, 'name': 'base_media_decode_time', 'value': int(i['value'])}
         old = {'self': NS(version=box.version, base_media_decode_time=box.base_media_decode_time), 'value': int(i['value'])}
         return {'env': env, 'old_env': old, 'call': lambda: setattr(box, 'base_media_decode_time', int(i['value']))}
+    if qual == 'TrackFragmentRunBox.post_encode':
+        import logging
+        g = lambda k: int(i[k])
+        tfhd = NS(base_data_offset=g('base_data_offset'))
+        moof = NS(position=g('moof_position'), size=g('moof_size'), traf=NS(tfhd=tfhd),
+                  find_peer=lambda name: NS(header_size=g('mdat_header_size')))
+        me = NS(flags=g('flags'), data_offset=g('data_offset'), position=g('position'), header_size=g('header_size'),
+                _first_field_pos=0, _fullname='trun', options=NS(log=logging.getLogger('x')),
+                data_offset_present=1, find_atom=lambda *a, **k: moof, encode_fields=lambda d: None,
+                output_box_fields=lambda d: None)
+        dest = io.BytesIO()
+        env = {'self': me, 'dest': dest, 'base_data_offset': tfhd.base_data_offset, 'moof_position': moof.position,
+               'moof_size': moof.size, 'mdat_header_size': g('mdat_header_size')}
+        old = dict(env, self=NS(flags=me.flags, data_offset=me.data_offset))
+        return {'env': env, 'old_env': old, 'call': lambda: mp4.TrackFragmentRunBox.post_encode(me, dest)}
+    if qual == 'SampleAuxiliaryInformationOffsetsBox.post_encode':
+        import logging
+        g = lambda k: int(i[k])
+        senc = NS(position=g('senc_position'), samples=[NS(offset=g('sample0_offset'))])
+        tfhd = NS(base_data_offset=None if i['bdo_none'] else g('base_data_offset'))
+        parent = NS(find_child=lambda name: senc if name == 'senc' else tfhd)
+        me = NS(offsets=None if variant.endswith('none') else [g('offset0')], position=g('position'), _fullname='saio',
+                parent=parent, options=NS(log=logging.getLogger('x'), has_bug=lambda name: bool(i['has_bug_saio'])),
+                find_atom=lambda name: NS(position=g('moof_position')), encode=lambda d: None)
+        me.find_first_cenc_sample = lambda: mp4.SampleAuxiliaryInformationOffsetsBox.find_first_cenc_sample(me)
+        dest = io.BytesIO()
+        env = {'self': me, 'dest': dest, 'senc_position': senc.position, 'sample0_offset': g('sample0_offset'),
+               'base_data_offset': g('base_data_offset'), 'moof_position': g('moof_position'), 'offset0': g('offset0'),
+               'bdo_none': bool(i['bdo_none']), 'has_bug_saio': bool(i['has_bug_saio']),
+               'single': lambda x, v: isinstance(x, list) and len(x) == 1 and x[0] == v, 'is_unset': lambda x: x is None}
+        return {'env': env, 'old_env': dict(env), 'call': lambda: mp4.SampleAuxiliaryInformationOffsetsBox.post_encode(me, dest)}
     cls = getattr(mp4, variant)
     kw = {f: int(i[f]) for f in FIELDS[variant] if f in i}
     if variant == 'TrackFragmentRunBox':
